@@ -378,7 +378,8 @@ class CookieJar(AbstractCookieJar):
             expire_time: float | None = None
             if max_age := cookie["max-age"]:
                 try:
-                    delta_seconds = int(max_age)
+                    # (any number of digits is an int, not every int is a float)
+                    delta_seconds = min(int(max_age), self.MAX_TIME)
                     expire_time = min(time.time() + delta_seconds, self.MAX_TIME)
                 except ValueError:
                     cookie["max-age"] = ""
